@@ -1,7 +1,7 @@
 #!/usr/bin/env python3
 """Regenerates the hand-mutant table of DESIGN.md 6.3 from a tools/run_mutants.sh log."""
 import re, sys
-log=open(sys.argv[1] if len(sys.argv)>1 else '/var/tmp/mutants_final.log').read()
+log=open(sys.argv[1] if len(sys.argv)>1 else '/verif/tools/logs/mutants_last.log').read()
 rows=[]; cur=None
 for l in log.splitlines():
     m=re.match(r'=== (\S+)',l)
